@@ -495,7 +495,32 @@ PT_MODE = {"app": pt.Mode.Application, "sig": pt.Mode.Signature}
 def compile_real(prog: Program, version: int, *, assemble=False, scratch_slots=None, frame_pointers=None):
     """Compile with the real code. Returns ('ok', teal) | ('err', class name, message) | ('crash', class name, message)."""
     import pyteal.errors as pe
+    import signal
     own = (pe.TealInputError, pe.TealCompileError, pe.TealTypeError, pe.TealInternalError, pe.TealPragmaError)
+
+    class _Slow(BaseException):
+        pass
+
+    def _alarm(*_a):
+        raise _Slow()
+
+    old = signal.signal(signal.SIGALRM, _alarm)
+    signal.setitimer(signal.ITIMER_REAL, COMPILE_TIMEOUT_S)
+    try:
+        return _compile_real(prog, version, own, assemble, scratch_slots, frame_pointers)
+    except _Slow:
+        # compile time is not part of any property (the optimiser's structural block comparison and
+        # validateSlots are exponential on some shapes); counted, never alarmed on
+        return ("timeout", "CompileTimeout", f"compilation exceeded {COMPILE_TIMEOUT_S}s")
+    finally:
+        signal.setitimer(signal.ITIMER_REAL, 0)
+        signal.signal(signal.SIGALRM, old)
+
+
+COMPILE_TIMEOUT_S = 10
+
+
+def _compile_real(prog, version, own, assemble, scratch_slots, frame_pointers):
     try:
         b = Builder(prog)
         ast = b.main()
